@@ -4,14 +4,13 @@
 //
 //	keyfor  <host> <ks> <text>                          (hex, "-" = empty)  the key string the code computes
 //	keypair <h1> <k1> <s1> <h2> <k2> <s2>               same | differ: do the two triples get ONE cache entry?
-//	                                                    (spec-backed: same iff the triples are equal)
-//	keypairX ...                                        the same question for the pairs on which the unchanged code
-//	                                                    is known to collide (KF-C14-1): model-vs-code only
+//	                                                    (spec-backed for EVERY pair: same iff the triples are equal,
+//	                                                    C14_keypair_spec)
 //	lookupx / unprepx / completex                       lookup / unprep / complete with hex triples and keys (any bytes)
 //
-// The classification keypair / keypairX is made here, independently of the code under test: a pair is in the
-// excluded class iff the plain concatenations of the two triples are equal although the host-id lengths or
-// the keyspace lengths differ (the exact condition of C14_keyFor_injective_iff).
+// There is no excluded class any more (KF-C14-1 repaired: the key carries the lengths of host id and keyspace):
+// the pairs whose plain concatenations are equal although the host-id lengths or the keyspace lengths differ -
+// the ones the old key identified - are ordinary keypair cases, counted as near/concat-equal in the distribution.
 package main
 
 import (
@@ -118,9 +117,9 @@ func (t triple) eq(u triple) bool {
 
 var nearHosts = []string{
 	"2b4d1e6a-0c1f-4f0e-9d3a-5b6c7d8e9f01", "2b4d1e6a-0c1f-4f0e-9d3a-5b6c7d8e9f02", "2B4D1E6A-0C1F-4F0E-9D3A-5B6C7D8E9F01",
-	"h1", "h2", "h", "h12", "", "h\x001", "h/1", "h:1", "10.0.0.1", "10.0.0.11",
+	"h1", "h2", "h", "h12", "", "h\x001", "h/1", "h:1", "10.0.0.1", "10.0.0.11", "h\u00e9", "1", "12", longPad[:100], longPad[:109],
 }
-var nearKss = []string{"", "ks", "Ks", "kS", "ks1", "ks2", "k", "s", "ks\x00", "k/s", "k:s", "k s", "system", "system_auth", "SELECT"}
+var nearKss = []string{"", "ks", "Ks", "kS", "ks1", "ks2", "k", "s", "ks\x00", "k/s", "k:s", "k s", "system", "system_auth", "SELECT", "k\u00e9", "\u00e9", "2", "0/", longPad[:10], longPad[:99], longPad[:100], longPad[:101]}
 var nearSeps = []string{"\x00", "/", ":", "|", " ", ",", "\x1f", "\n", "0", "2/"}
 
 func nearBaseTriple(r *vh.Rng) triple {
@@ -140,7 +139,44 @@ func nearBaseTriple(r *vh.Rng) triple {
 func nearPair(r *vh.Rng) (triple, triple, string) {
 	a := nearBaseTriple(r)
 	b := triple{a[0], a[1], a[2]}
-	switch k := r.Intn(12); k {
+	switch k := r.Intn(15); k {
+	case 12:
+		// both borders moved so that the KEYSPACE length stays: only the host-id length tells the two apart
+		c := a.cat()
+		if len(c) <= len(a[1]) {
+			return a, b, "identical"
+		}
+		i := r.Intn(len(c) - len(a[1]) + 1)
+		b[0], b[1], b[2] = c[:i], c[i:i+len(a[1])], c[i+len(a[1]):]
+		return a, b, "borders-moved-same-ks-len"
+	case 13:
+		// lengths (n, nn) and (nn, n) over one concatenation: the digits of the two lengths, written without a
+		// separator, are the same string ("111", "222", ...)
+		n := 1 + r.Intn(3)
+		c := append(r.Bytes(12*n), a[2]...)
+		for i := range c[:12*n] {
+			c[i] = "abk/0123456789"[int(c[i])%14]
+		}
+		a[0], a[1], a[2] = c[:n], c[n:12*n], c[12*n:]
+		b[0], b[1], b[2] = c[:11*n], c[11*n:12*n], c[12*n:]
+		return a, b, "length-digits-ambiguous"
+	case 14:
+		// a digit at the start of the host id continues the decimal length before it: ("2", x, y..) against
+		// (x, the next 12 bytes, rest) - "1/1" + "2"+X and "1/12" + X if the second '/' were missing
+		x := r.Bytes(20 + r.Intn(6))
+		for i := range x {
+			x[i] = "abk/0123456789"[int(x[i])%14]
+		}
+		d := r.Intn(10)
+		if r.Bool() {
+			a[0], a[1], a[2] = []byte{byte('0' + d)}, x[:1], x[1:]
+			b[0], b[1], b[2] = x[:1], x[1:11+d], x[11+d:]
+			return a, b, "length-digit-bleeds"
+		}
+		// lengths (1, 1d) and (11, d) over one concatenation: "1"+"1d" and "11"+"d" are the same digits
+		a[0], a[1], a[2] = x[:1], x[1:11+d], x[11+d:]
+		b[0], b[1], b[2] = x[:11], x[11:11+d], x[11+d:]
+		return a, b, "length-digits-ambiguous"
 	case 0:
 		return a, b, "identical"
 	case 1, 2, 3:
@@ -214,18 +250,13 @@ func nearPair(r *vh.Rng) (triple, triple, string) {
 	}
 }
 
-// excluded: the pair is one on which the unchanged code's key is known not to be injective (KF-C14-1).
-func excludedPair(a, b triple) bool {
+// concatEqual: different triples whose plain concatenations are equal - the pairs a key without lengths identifies
+// (the former excluded class of KF-C14-1; only counted now, the pair is judged like every other).
+func concatEqual(a, b triple) bool {
 	return bytes.Equal(a.cat(), b.cat()) && (len(a[0]) != len(b[0]) || len(a[1]) != len(b[1]))
 }
 
-func pairOp(a, b triple) string {
-	w := "keypair"
-	if excludedPair(a, b) {
-		w = "keypairX"
-	}
-	return w + " " + a.hex() + " " + b.hex()
-}
+func pairOp(a, b triple) string { return "keypair " + a.hex() + " " + b.hex() }
 
 func unhex3(w []string) (triple, bool) {
 	var t triple
@@ -264,7 +295,7 @@ func (st *state) execNear(w []string) string {
 			return "bad-op"
 		}
 		return vh.Hex([]byte(st.p.KeyFor(string(t[0]), string(t[1]), string(t[2]))))
-	case "keypair", "keypairX":
+	case "keypair":
 		if len(w) != 7 {
 			return "bad-op"
 		}
@@ -272,9 +303,6 @@ func (st *state) execNear(w []string) string {
 		b, ok2 := unhex3(w[4:7])
 		if !ok1 || !ok2 {
 			return "bad-op"
-		}
-		if w[0] == "keypair" && excludedPair(a, b) {
-			return "excluded"
 		}
 		if st.p.KeyFor(string(a[0]), string(a[1]), string(a[2])) == st.p.KeyFor(string(b[0]), string(b[1]), string(b[2])) {
 			return "same"
@@ -336,8 +364,8 @@ func nearTier(r *vh.Rng, out *vh.Out, emit func(op, class string) string, mult i
 		ans := emit(op, "near/"+strings.Fields(op)[0])
 		k := strings.SplitN(kind, "/", 2)[0]
 		out.Dist["near/pair/"+k+"/"+ans]++
-		if strings.HasPrefix(op, "keypairX") {
-			out.Dist["near/known-finding-class(KF-C14-1:concatenation-collides)"]++
+		if concatEqual(a, b) {
+			out.Dist["near/concat-equal(lengths-differ)/"+ans]++
 		}
 		// the relation is symmetric and reflexive
 		if i%5 == 0 {
